@@ -33,7 +33,20 @@ def _replay_seed(rep, r):
     return path, out.get("confirmed", False), out
 
 
+def _replay_pull(rep, r):
+    if "pull" not in _memo:
+        env = dict(os.environ, PYTHONPATH=os.path.join(REPO, "src") + os.pathsep + VERIF)
+        p = subprocess.run([VENV_PY, os.path.join(VERIF, "runtime", "c06_pull_replay.py")], capture_output=True, text=True, env=env, timeout=300)
+        lines = [l for l in p.stdout.splitlines() if l.startswith("{")]
+        _memo["pull"] = json.loads(lines[-1]) if lines else dict(confirmed=False, note=p.stderr[-300:])
+    out = _memo["pull"]
+    path = rep.write_replay(r.name, dict(obligation=r.to_json(), solver_output=r.model, confirmed=out.get("confirmed", False), replay=out))
+    return path, out.get("confirmed", False), out
+
+
 def _replay(rep, r):
+    if r.name.startswith("C06.pull"):
+        return _replay_pull(rep, r)
     if r.name.startswith("C06.getter"):
         return _replay_getter(rep, r)
     if r.name.startswith("C14.seed"):
